@@ -32,6 +32,7 @@ TRUSTED = [
     "Haar unitaries by QR of Ginibre matrices; seeded np.random.default_rng",
 ]
 ASSUMPTIONS = TRUSTED
+from props.C16_prove import prove  # noqa: E402,F401
 
 # =============================================================================================
 # executor side
